@@ -76,6 +76,18 @@ Theorem C18_vals_no_writes : forall s h w r w', vals3 s h w = Ret r w' ->
 Proof. exact vals3_no_writes. Qed.
 Print Assumptions C18_vals_no_writes.
 
+(* the pointer getters cbor_bytestring_handle / cbor_string_handle / cbor_bytestring_chunks_handle /
+   cbor_string_chunks_handle / cbor_array_handle / cbor_map_handle ([ptrs3]: the block designated and what the
+   client finds there) *)
+Theorem C18_ptrs_readonly : forall s h, readonly (ptrs3 s h).
+Proof. exact ptrs3_readonly. Qed.
+Print Assumptions C18_ptrs_readonly.
+Theorem C18_ptrs_no_writes : forall s h w r w', ptrs3 s h w = Ret r w' ->
+  (forall b, In (AccW b) (alog w') -> In (AccW b) (alog w)) /\ (forall b, heap w' b = heap w b) /\
+  next w' = next w /\ nreq w' = nreq w /\ trace w' = trace w.
+Proof. exact ptrs3_no_writes. Qed.
+Print Assumptions C18_ptrs_no_writes.
+
 (* non-vacuity: on a tag around a negative integer the three calls return (bytes, numbers) and the log
    gains reads only; cbor_move, by contrast, is logged as a store *)
 Example C18_layer3_nonvacuous :
